@@ -539,13 +539,21 @@ class Register(wiring.Component):
         m = Module()
 
         field_start = 0
+        field_names = set()
 
         for field_path, field in self:
             field_width = Shape.cast(field.port.shape).width
             field_slice = slice(field_start, field_start + field_width)
 
             if field_path:
-                m.submodules["__".join(str(key) for key in field_path)] = field
+                # distinct field paths may be formatted alike (e.g. ("a", 0) and ("a__0",))
+                field_name = field_base = "__".join(str(key) for key in field_path)
+                suffix = 0
+                while field_name in field_names:
+                    suffix += 1
+                    field_name = f"{field_base}__{suffix}"
+                field_names.add(field_name)
+                m.submodules[field_name] = field
             else: # avoid empty name for a single un-named field
                 m.submodules += field
 
@@ -792,8 +800,16 @@ class Bridge(wiring.Component):
         m = Module()
 
         m.submodules.mux = self._mux
+        reg_names = {"mux"}
         for reg, reg_name, _ in self.bus.memory_map.resources():
-            m.submodules["__".join(str(part) for part in reg_name)] = reg
+            # distinct register names may be formatted alike (e.g. ("a", 1) and ("a", "1"))
+            reg_name = reg_base = "__".join(str(part) for part in reg_name)
+            suffix = 0
+            while reg_name in reg_names:
+                suffix += 1
+                reg_name = f"{reg_base}__{suffix}"
+            reg_names.add(reg_name)
+            m.submodules[reg_name] = reg
 
         connect(m, flipped(self.bus), self._mux.bus)
 
